@@ -124,6 +124,26 @@ def leg_lists(ns, res, spec):
                 res.violation('py:column-names-modified:' + common.feature_sig(case['q']), '[py/CSVWriter on list input] the caller\'s column-name list was modified by %s: %r -> %r' % (case['query_text'], a_names0, case['a_names']), dict(case, a_names=a_names0, b_names=b_names0, engine='py', leg='csv-writer'))
                 case['a_names'], case['b_names'] = a_names0, b_names0
             res.count('column_name_list_checks')
+            # (3c) column-name lists of the wrong length (shorter or longer than the records): whether the query is refused or not, the lists are the caller's
+            if case['a_names'] is not None and n % 4 == 1:
+                for short in (True, False):
+                    an2 = list(case['a_names'][:-1]) if short else list(case['a_names']) + ['extra']
+                    bn2 = None if case['b_names'] is None else (list(case['b_names'][:-1]) if short else list(case['b_names']) + ['extra'])
+                    an3, bn3 = list(an2), (None if bn2 is None else list(bn2))
+                    for use in ('input', 'join'):
+                        try:
+                            ns.rbql.query_table(case['query_text'] if use == 'join' else 'select *', case['A'], [], [], case['B'], an2 if use == 'input' else case['a_names'], bn2 if use == 'join' else case['b_names'])
+                        except Exception:
+                            pass
+                        res.count('wrong_length_column_name_list_runs')
+                        if an2 != an3 or bn2 != bn3 or case['a_names'] != a_names0 or case['b_names'] != b_names0:
+                            res.violation('py:column-names-modified:wrong-length-list', '[py/query_table] a column-name list %s than the records was modified: %r -> %r / %r -> %r' % (
+                                'shorter' if short else 'longer', an3, an2, bn3, bn2), dict(case, engine='py', leg='names-wrong-length'))
+                            an2, bn2 = list(an3), (None if bn3 is None else list(bn3))
+                            case['a_names'], case['b_names'] = a_names0, b_names0
+                if boundary.deep_snapshot(case['A']) != A_before or boundary.deep_snapshot(case['B']) != B_before:
+                    res.violation('py:sources-modified:wrong-length-names', '[py/query_table] rows modified under a column-name list of the wrong length', dict(case, engine='py', leg='names-wrong-length'))
+                    case['A'], case['B'] = A_before, B_before
             # (3b) no input iterator at all: the table is named in a FROM clause and comes out of the caller's registry (what the IPython magic does)
             if not case['q'].get('with') and n % 3 == 1:
                 out_rows = []
@@ -534,7 +554,8 @@ def leg_rich_js(res, spec):
             for t in (A, B):
                 for r in t:
                     r[1] = r[1] if isinstance(r[1], list) else [r[1]]
-            names = rng.choice([None, ['key', 'vals', 'other'], ['key', 'vals, all', 'the "other"'], ['k;1', 'v\nw', 'o']])
+            # (the last two: arrays shorter / longer than the records - the query fails, the arrays stay as they are)
+            names = rng.choice([None, ['key', 'vals', 'other'], ['key', 'vals, all', 'the "other"'], ['k;1', 'v\nw', 'o'], ['key', 'vals'], ['key', 'vals', 'other', 'more']])
             q = JS_RICH_QUERIES[(n + spec['i']) % len(JS_RICH_QUERIES)]
             use_b = ' join ' in q
             reqs.append({'query': q, 'input': A, 'join': B if use_b else None, 'input_cols': names, 'join_cols': (['bkey', 'bvals', 'bother'] if names else None) if use_b else None,
@@ -657,7 +678,7 @@ def run_shard(spec, res):
 def summarize(tier, seed, m):
     return {
         'rule': 'the query generators of C01-C05 (every query shape) plus deliberately failing variants (syntax error, parsing error, runtime error, unknown join table), each executed (1) through rbql.query with probes and snapshots, (2) through the icontract-armed query_table, (3) with the CSV writer attached to list input, (3b) with no input iterator at all - the table named in a FROM clause and taken from the ListTableRegistry of the caller -, (4) on the JS engine with array snapshots; list tables with numbers, None and mutable list-valued cells under %d query texts (stars, UNNEST, every aggregate, list arithmetic and methods, UPDATE, joins) through query_table, the CSV writer as sink, a mutating probe sink and pandas object columns, compared with fully deep snapshots; pandas dataframes with deep copies (values, dtypes, labels, index values, index / column level names, attrs; the index named, named like a column, two-level, non-default); a file-backed sqlite database with recording connection, authorizer log, total_changes and file hash under %d hostile table identifiers (in the query text, as input table, and passed directly to SqliteRecordIterator); query_csv with file fingerprints and an audit-hook log of every open() (one run in five with the input path spelled relatively / through .., and the output path naming the directory that holds the input, in several spellings, or a path below a missing directory); the CLI under strace. distinct_nontrivial = distinct executed (query, source) cases.' % (len(RICH_QUERIES), len(HOSTILE_IDS)),
-        'required': ['from_clause_registry_runs', 'js_column_name_array_checks', 'list_runs_with_header_modifier', 'csv_runs_with_directory_or_odd_output_path', 'rich_cases_with_tuple_rows', 'js_rich_csv_sink_runs_succeeding', 'js_rich_table_runs', 'rich_runs_failing', 'rich_runs_succeeding', 'rich_runs:csv-writer-quoted', 'rich_runs:query+mutating-sink', 'rich_runs:pandas', 'list_runs_failing', 'list_runs_succeeding', 'contract_evaluations', 'csv_writer_on_list_runs', 'column_name_list_checks', 'pandas_runs_succeeding', 'pandas_runs_failing', 'pandas_runs_non_string_labels', 'pandas_runs_non_default_index', 'sqlite_runs_hostile', 'sqlite_runs_with_open_transaction', 'sqlite_sql_statements_observed', 'sqlite_authorizer_events', 'sqlite_direct_constructor_runs', 'csv_runs_succeeding', 'csv_runs_failing', 'csv_open_events_observed', 'strace_cli_runs', 'strace_opens_of_sources_observed', 'js_cases'],
+        'required': ['from_clause_registry_runs', 'js_column_name_array_checks', 'list_runs_with_header_modifier', 'csv_runs_with_directory_or_odd_output_path', 'rich_cases_with_tuple_rows', 'js_rich_csv_sink_runs_succeeding', 'js_rich_table_runs', 'rich_runs_failing', 'rich_runs_succeeding', 'rich_runs:csv-writer-quoted', 'rich_runs:query+mutating-sink', 'rich_runs:pandas', 'list_runs_failing', 'list_runs_succeeding', 'contract_evaluations', 'csv_writer_on_list_runs', 'column_name_list_checks', 'wrong_length_column_name_list_runs', 'pandas_runs_succeeding', 'pandas_runs_failing', 'pandas_runs_non_string_labels', 'pandas_runs_non_default_index', 'sqlite_runs_hostile', 'sqlite_runs_with_open_transaction', 'sqlite_sql_statements_observed', 'sqlite_authorizer_events', 'sqlite_direct_constructor_runs', 'csv_runs_succeeding', 'csv_runs_failing', 'csv_open_events_observed', 'strace_cli_runs', 'strace_opens_of_sources_observed', 'js_cases'],
         'assumptions': ['hostile identifiers are only required not to reach sqlite and not to change the database; the error class they produce is not demanded', 'sqlite3.connect itself opens the database file read-write; the file hash (not the open mode) decides for sqlite'],
     }
 
